@@ -62,9 +62,10 @@ LEVEL_TEXT = ("Proved in Lean 4 for all inputs: each of 47 structural traits/con
               "pointers, member pointers, references, arrays and qualified function types, and the standard's laws hold "
               "(exactly one primary category, reference collapsing, remove_cvref = remove_cv after remove_reference); the "
               "integer numeric_limits members equal 2^digits-1, -2^digits, and digits*3/10 = floor(digits*log10 2) for every "
-              "width below 103 bits.  The ratio model (normalisation, the four arithmetic aliases with their unreduced "
-              "intermediates, six comparisons) and make_signed/make_unsigned/underlying_type are modelled and compared on "
-              "every run but have no theorem yet (coverage.correspondence_only).  The models are tied to the current "
+              "width below 103 bits; ratio_less/less_equal/greater/greater_equal equal the exact rational comparison whenever "
+              "the cross products fit intmax_t.  The rest of the ratio model (normalisation to lowest terms, the arithmetic "
+              "aliases beyond their reduction to ratio<n,d>) and make_signed/make_unsigned/underlying_type are modelled and "
+              "compared on every run but have no full theorem yet (coverage.correspondence_only).  The models are tied to the current "
               "source on every run by a generated compile-time matrix (etl = model, std = spec, etl = spec) over a Lean-"
               "enumerated zoo of 1.5e3 (quick) / 1e4 (thorough) types, all arithmetic types and a ratio grid incl. near-"
               "overflow values.  About 80 intrinsic-backed class traits and relational traits/concepts are compared with "
@@ -73,8 +74,9 @@ LEVEL_NOTE = ("Trusted: Lean kernel + propext/Classical.choice/Quot.sound; fidel
               "types; g++ 12 front end and intrinsics; libstdc++ as oracle.  Part (d) (coverage.unproved_observed) is "
               "differential testing, not proof.  Floating-point numeric_limits members are compared with std only.")
 CORRESPONDENCE_ONLY = ["ratio<N,D>::num/den/type, ratio_add, ratio_subtract, ratio_multiply, ratio_divide, ratio_equal, "
-                       "ratio_not_equal, ratio_less, ratio_less_equal, ratio_greater, ratio_greater_equal (model = exact "
-                       "rational spec = std::ratio on the grid; no Lean theorem yet)",
+                       "ratio_not_equal (model = exact rational spec = std::ratio on the grid; proved only: the four ordering "
+                       "traits equal the exact comparison when the cross products fit, and ratio_add/ratio_multiply reduce "
+                       "to ratio<unreduced n, d> when the intermediates fit (…_partial: `ratio<N,D>` = lowest terms is not proved)",
                        "make_signed, make_unsigned, underlying_type, add_cv, integer numeric_limits::digits10 of the "
                        "literal specialisations beyond 8-bit bytes",
                        "numeric_limits<floating-point>::* (compared with std only)",
@@ -91,7 +93,8 @@ UNPROVED_OBSERVED = [
     "regular, equality_comparable, swappable, convertible_to, derived_from, assignable_from, constructible_from, common_with, "
     "common_reference_with, invocable"]
 THEOREMS = {
-    "rn": [], "ra": [],
+    "rn": [], "ra": ["Tetl.C15.Props.ratioLess_eq", "Tetl.C15.Props.ratioAdd_eq_mkRatio_partial",
+                     "Tetl.C15.Props.ratioMul_eq_mkRatio_partial", "Tetl.C15.Props.ratioAdd_overflow_counterexample"],
     "lim": ["Tetl.C15.Props.intLimits_eq", "Tetl.C15.Props.intLimits_char_eq", "Tetl.C15.Props.intLimits_bool_char8",
             "Tetl.C15.Props.digits10_eq_floor_log", "Tetl.C15.Props.digits10_eq_spec"],
     "ut": ["Tetl.C15.Props.exactly_one_primary_category", "Tetl.C15.Props.isFunction_eq", "Tetl.C15.Props.removeCv_eq",
@@ -307,7 +310,9 @@ def classify_item(line, key, impl, spec):
     """Known-finding id for a failing item of a case line, or None."""
     if line.startswith("db "):
         # common_reference<T, U> is only defined for identical T and U; the concepts built on it inherit the gap
-        if key in ("common_reference", "common_reference_with", "common_with") and impl in ("none", "0"):
+        if key in ("common_reference_with", "common_with") and impl == "0":
+            return "F-C15-common-reference-unimplemented"
+        if key == "common_reference":        # an identity stub: no COMMON-REF, no decay of identical non-reference types
             return "F-C15-common-reference-unimplemented"
         if key == "assignable_from" and impl == "1" and spec == "0":
             return "F-C15-common-reference-unimplemented"
